@@ -58,7 +58,7 @@ Definition model_run (v : tval) : st sh lo * list (nat * nat) :=
 
 Definition res_code (t : lo) : N :=
   match l_pc t with
-  | PDone (ROk _) => 0 | PDone RRevoked => 0 | PDone RTick => 100 | PDone (RErr e) => e | PDone RUnmodelled => 999
+  | PDone (ROk _) => 0 | PDone RRevoked => 0 | PDone RGone => 0 | PDone RTick => 100 | PDone (RErr e) => e | PDone RUnmodelled => 999
   | _ => match l_kind t with KTick => 0 | _ => 998 end
   end.
 Definition res_map (t : lo) : N :=        (* map + 2 *)
